@@ -54,6 +54,8 @@ def run(tier):
         # (memory: the mutants and their reference decodings are held until the trace is built; large files get fewer)
         for (mname, mb) in mutants_of(rnd, sname, buf, 150 if (tier == "quick" or len(buf) > 20000) else 800):
             cases.append((mname, mb))
+        for call in ("validate_checksums", "find_valid", "validate_data"):
+            cases.append((sname + "-orig+mid:" + call, buf))
     if tier == "thorough":
         # every single-bit flip of every body byte of the two smallest files, every truncation length
         for (sname, buf, chunks) in sorted(seeds, key=lambda s_: len(s_[1]))[:2]:
@@ -76,7 +78,17 @@ def run(tier):
             st = "mix"
         sizes = readtrace.read_sizes(rnd, total, st)
         sink = os.path.join(wd, cid + ".out")
-        scripts.append(readtrace.read_script(cid, path, sink, sizes))
+        scr = readtrace.read_script(cid, path, sink, sizes)
+        if "+mid:" in name and len(sizes) < 2:
+            sizes = [max(1, total // 3)] + sizes
+        if (i % 3 == 1 or "+mid:" in name) and len(sizes) > 1 and rf.content is not None and rf.valid_strict:
+            # a validation call between the first read and the rest, on the same context: what the later reads deliver must
+            # still be the content, in order and once (state carried across public calls).  Only on VALID files: their content is
+            # defined: the attribution of delivered bytes to chunks by position presumes an undisturbed sequential read
+            L = scr.split("\n"); k = [j for j, l in enumerate(L) if l.startswith("read ")][0]
+            L.insert(k + 1, "%s 0" % (name.split("+mid:")[1] if "+mid:" in name else ("validate_checksums", "find_valid", "validate_data")[(i // 3) % 3])); scr = "\n".join(L)
+            name = name + ("+midvalidate" if "+mid:" not in name else "")
+        scripts.append(scr)
         meta.append((cid, name, path, sink, rf))
     nproc = 12
     parts = ["".join(scripts[i::nproc]) for i in range(nproc)]
